@@ -193,20 +193,48 @@ def settle (v : Nat) : Nat → State → State
     | none => s
     | some s' => settle v n s'
 
-/-- the routes of the Runtime API router (lambda/rapi/router.go): fixed paths only -/
-def fixedRoutes (snapshot : Bool) : List (String × String) :=
-  [("GET", "/2018-06-01/ping"), ("GET", "/2018-06-01/runtime/invocation/next"),
-   ("POST", "/2018-06-01/runtime/init/error"),
-   ("POST", "/2020-01-01/extension/register"), ("GET", "/2020-01-01/extension/event/next"),
-   ("POST", "/2020-01-01/extension/init/error"), ("POST", "/2020-01-01/extension/exit/error")] ++
-  (if snapshot then [("GET", "/2018-06-01/runtime/restore/next"), ("POST", "/2018-06-01/runtime/restore/error"),
-                     ("GET", "/2021-04-23/credentials")] else [])
+/-- the routes of the Runtime API server — `lambda/rapi/router.go` composed with the mounts of
+    `lambda/rapi/server.go`, in source order: (method, path, condition, guard).
+    condition: "" always | "snapshot" only with init caching | "telemetry" only with the telemetry API
+    enabled | "stub" only with it disabled (how the emulator runs);
+    guard: "" none | "reqid" `AwsRequestIDValidator` (URL id = current id, before the handler) |
+    "agentid" `AgentUniqueIdentifierHeaderValidator` (identifier header present and a UUID, before the handler).
+    Regenerated from the source on every run and proved equal (`Rie.Props.RoutesTable`). -/
+def routeTable : List (String × String × String × String) := [
+  ("GET", "/2018-06-01/ping", "", ""),
+  ("GET", "/2018-06-01/runtime/invocation/next", "", ""),
+  ("POST", "/2018-06-01/runtime/invocation/{awsrequestid}/response", "", "reqid"),
+  ("POST", "/2018-06-01/runtime/invocation/{awsrequestid}/error", "", "reqid"),
+  ("POST", "/2018-06-01/runtime/init/error", "", ""),
+  ("GET", "/2018-06-01/runtime/restore/next", "snapshot", ""),
+  ("POST", "/2018-06-01/runtime/restore/error", "snapshot", ""),
+  ("POST", "/2020-01-01/extension/register", "", ""),
+  ("GET", "/2020-01-01/extension/event/next", "", "agentid"),
+  ("POST", "/2020-01-01/extension/init/error", "", "agentid"),
+  ("POST", "/2020-01-01/extension/exit/error", "", "agentid"),
+  ("PUT", "/2020-08-15/logs", "telemetry", "agentid"),
+  ("PUT", "/2022-07-01/telemetry", "telemetry", "agentid"),
+  ("PUT", "/2020-08-15/logs", "stub", ""),
+  ("PUT", "/2022-07-01/telemetry", "stub", ""),
+  ("GET", "/2021-04-23/credentials", "snapshot", "")]
 
-/-- a request that only exercises routing: 404 unknown path, 405 known path with another method -/
+/-- is a route of the table served in this mode? (the emulator never enables the telemetry API) -/
+def routeOn (snapshot : Bool) (r : String × String × String × String) : Bool :=
+  r.2.2.1 == "" || r.2.2.1 == "stub" || (snapshot && r.2.2.1 == "snapshot")
+
+/-- the fixed-path routes served (method, path, condition); the routes with an `{awsrequestid}` path
+    parameter — exactly those behind the request-id validator, `RoutesTable.guards` — are ops of
+    their own (`rtResponse`, `rtError`) -/
+def fixedRoutes (snapshot : Bool) : List (String × String × String) :=
+  ((routeTable.filter (routeOn snapshot)).filter fun r => r.2.2.2 != "reqid").map fun r => (r.1, r.2.1, r.2.2.1)
+
+/-- a request that only exercises routing: 404 unknown path, 405 known path with another method;
+    a served route answers 200 (the two telemetry stubs: 202 with their `…NotSupported` error type) -/
 def rawRoute (snapshot : Bool) (m p : String) : String :=
   let rs := fixedRoutes snapshot
-  if rs.contains (m, p) then "200"
-  else if rs.any (·.2 == p) then "405" else "404"
+  match rs.find? fun r => r.1 == m && r.2.1 == p with
+  | some r => if r.2.2 == "stub" then (if p == "/2020-08-15/logs" then "202,Logs.NotSupported" else "202,Telemetry.NotSupported") else "200"
+  | none => if rs.any (·.2.1 == p) then "405" else "404"
 
 /-! ### ops -/
 
